@@ -72,6 +72,17 @@ def witness_cases(rng):
                 ["raw 0 9 1 0 4 " + h(a4), "def a raw 0", "def p phase a 10", "def q phase p -8"],
                 [("q", 9, 0, 10)], ["q"]))
     W[-1].raws = [(0, "a", 1, 0, 4)]
+    # open findings, replayed on every run
+    a12 = list(range(1, 13)); b21 = list(range(1, 22))
+    W.append(mk(900103, "/FRAMEOFFSET 2\na RAW FLOAT64 2\nb RAW FLOAT64 7\nf3 PHASE b -1\nm MULTIPLY a f3\n", {"a": a12, "b": b21},
+                ["raw 0 9 2 2 12 " + h(a12), "raw 1 9 7 2 21 " + h(b21), "def a raw 0", "def b raw 1", "def f3 phase b -1", "def m multiply a f3"],
+                [("m", 9, 3, 4)], ["m"]))
+    W[-1].raws = [(0, "a", 2, 2, 12)]
+    i20 = [0, 1] * 10
+    W.append(mk(900104, "a RAW FLOAT64 1\ni RAW FLOAT64 1\np PHASE i 6\nx MPLEX a p 2 0\n", {"a": a20, "i": i20},
+                ["raw 0 9 1 0 20 " + h(a20), "raw 1 9 1 0 20 " + h(i20), "def a raw 0", "def i raw 1", "def p phase i 6", "def x mplex a p 2 0"],
+                [("x", 9, 0, 1)], ["x"]))
+    W[-1].raws = [(0, "a", 1, 0, 20)]
     return W
 
 
